@@ -18,7 +18,8 @@ if [ -f "$D/patch.diff" ]; then
   git -C "$BASE/repo" apply "$D/patch.diff" || { echo "$ID $PROP exit=2 apply_failed"; exit 2; }
 fi
 mkdir -p "$BASE/verif"
-( cd /verif && tar cf - --exclude=./target --exclude=./.git --exclude=./seeded --exclude=./evidence --exclude=./replays --exclude=./miri-c14/target . ) | ( cd "$BASE/verif" && tar xf - )
+# the committed machinery (HEAD), not the working tree: edits in progress must not leak into a run
+git -C /verif archive HEAD -- . ':!seeded' ':!evidence' | ( cd "$BASE/verif" && tar xf - )
 mkdir -p "$BASE/verif/evidence" "$BASE/verif/replays"
 sed -i "s#path = \"/repo\"#path = \"$BASE/repo\"#" "$BASE/verif/sim/Cargo.toml" "$BASE/verif/miri-c14/Cargo.toml"
 sed -i "s#^REPO = \"/repo\"#REPO = \"$BASE/repo\"#" "$BASE/verif/tools/gen_shadow.py"
